@@ -1,39 +1,31 @@
-(* C15: jitdiff.  No sortedness is needed: 0 <= ct <= i + j holds at every point (each ct += 1 is
-   paired with an i += 1 or a j += 1 that is not undone by the later j -= 1), writes happen with
-   i < m and j <= n, and end2[j - 1] is only read after a j += 1 of the same outer iteration. *)
-From Coq Require Import ZArith QArith String List Bool Lia ZifyBool.
+(* C15: jitthreshold.  Public caller: Tsd.threshold validates [method] (one of the four strings,
+   integer tags 0..3 in the model) and passes the time support of the series, which has at least
+   one interval as soon as the series has a sample. *)
+From Coq Require Import ZArith QArith String List Bool Lia.
 From Verif Require Import Jit.Lang Jit.Interp Jit.Safety Jit.Tactics Gen.Kernels.
 Import ListNotations.
 Open Scope Z_scope.
 Local Open Scope string_scope.
 
-Definition Pre_jitdiff (args : list value) : Prop :=
-  exists d1 d2 d3 d4 s1 e1 s2 e2,
-    args = [Ar (A1 d1 s1); Ar (A1 d2 e1); Ar (A1 d3 s2); Ar (A1 d4 e2)]
-    /\ zlen s1 = zlen e1 /\ zlen s2 = zlen e2.
+Definition Pre_jitthreshold (args : list value) : Prop :=
+  exists d1 d2 d3 d4 ta da s e thr method,
+    args = [Ar (A1 d1 ta); Ar (A1 d2 da); Ar (A1 d3 s); Ar (A1 d4 e); Sc thr; Sc (VInt method)]
+    /\ zlen da = zlen ta /\ zlen s = zlen e /\ (zlen ta = 0 \/ 1 <= zlen s)
+    /\ 0 <= method <= 3.
 
-Definition ann_jitdiff (l : nat) : annot :=
+Definition ann_jitthreshold (l : nat) : annot :=
   match l with
-  | 0%nat => ALoop [("i", KInt); ("j", KInt); ("ct", KInt);
-                    ("newstart", KArr); ("newend", KArr); ("newmeta", KArr)]
-                   (fun st0 st => 0 <= getZ st "i" /\ 0 <= getZ st "j" <= getZ st0 "n"
-                                  /\ 0 <= getZ st "ct" <= getZ st "i" + getZ st "j")
-  | 1%nat => ALoop [("j", KInt)]
-                   (fun st0 st => getZ st0 "j" <= getZ st "j" <= getZ st0 "n")
-  | 2%nat => ALoop [("j", KInt); ("ct", KInt);
-                    ("newstart", KArr); ("newend", KArr); ("newmeta", KArr)]
-                   (fun st0 st => getZ st0 "j" <= getZ st "j" <= getZ st0 "n"
-                                  /\ 0 <= getZ st "ct" <= getZ st "i" + getZ st "j")
-  | 3%nat => ALoop [("i", KInt); ("ct", KInt);
-                    ("newstart", KArr); ("newend", KArr); ("newmeta", KArr)]
-                   (fun st0 st => 0 <= getZ st "i"
-                                  /\ 0 <= getZ st "ct" <= getZ st "i" + getZ st "j")
+  | 0%nat => ALoop [("t", KInt); ("k", KInt); ("first", KAny); ("last", KAny);
+                    ("ix_start", KArr); ("ix_end", KArr); ("new_start", KArr); ("new_end", KArr)]
+                   (fun st0 st => 0 <= getZ st "k" < getZ st0 "m")
+  | 1%nat => ALoop [("k", KInt)]
+                   (fun st0 st => getZ st0 "k" <= getZ st "k" < getZ st0 "m")
   | _ => ANone
   end.
 
-Theorem k_jitdiff_safe : forall args, Pre_jitdiff args ->
-  forall fuel, safe_outcome (run fuel k_jitdiff args).
+Theorem k_jitthreshold_safe : forall args, Pre_jitthreshold args ->
+  forall fuel, safe_outcome (run fuel k_jitthreshold args).
 Proof.
-  intros args (d1 & d2 & d3 & d4 & s1 & e1 & s2 & e2 & -> & H1 & H2) fuel.
-  safe_start k_jitdiff ann_jitdiff. Set Ltac Profiling. vc. Show Ltac Profile CutOff 2.
+  intros args (d1 & d2 & d3 & d4 & ta & da & s & e & thr & method & -> & H1 & H2 & H3 & H4) fuel.
+  safe_start k_jitthreshold ann_jitthreshold. Set Ltac Profiling. vc. Show Ltac Profile CutOff 3.
 Qed.
